@@ -263,7 +263,8 @@ class Session:
 
     def violate(self, step_i: int, op: str, oracle: str, detail: Any, key_extra: str = "") -> None:
         prop = "C14" if oracle.startswith("E") else "C13"
-        key = "%s op=%s %s" % (oracle, op, key_extra)
+        # E1/E4 findings are identified by the raising site, not by the operation that happened to reach it
+        key = "%s %s" % (oracle, key_extra) if oracle in ("E1", "E4") else "%s op=%s %s" % (oracle, op, key_extra)
         self.violations.append({"property": prop, "oracle": oracle, "op": op, "step": step_i, "detail": detail, "key": key.strip()})
         self.log.add("VIOLATION", oracle, op, step_i)
 
@@ -332,6 +333,10 @@ class Session:
         finally:
             self.seams.fs.write_fault = None
         fired = self.seams.solver.fired
+        for site in self.seams.solver.site_calls:
+            self.log.count("reach:%s:%s" % (name, site))
+        for site in self.seams.solver.fired_sites:
+            self.log.count("fired:%s:%s" % (name, site))
         self.seams.solver.begin_step(None)
         return out, res, fired
 
